@@ -50,6 +50,10 @@ func c17Record(r *verifrt.Rand) (ChartConfig, []string) {
 	if r.Intn(2) == 0 {
 		c.Description = c17Value(r)
 	}
+	if r.Intn(150) == 0 {
+		// a very long line (a description pasted from elsewhere): lines have no length limit
+		c.Description = "long " + strings.Repeat("lorem ipsum ", verifrt.Pick(r, []int{5460, 5470, 6000, 12000})) + "end"
+	}
 	for k, n := 0, r.Intn(4); k < n; k++ {
 		c.Issue = append(c.Issue, c17Value(r))
 	}
@@ -310,7 +314,7 @@ func c17Total(t *testing.T) {
 func c17Roundtrip(t *testing.T) {
 	const check = "C17.roundtrip"
 	res := verifrt.NewResult(check)
-	res.Rule = "random record sets (1-6 records; every field independently present/absent; 0-3 issue lines anywhere in the record; counters with 0-12 buckets split over 1-6 lines; depth/error incl. 0 and negatives) rendered by an independent renderer following the package documentation (random field order, key/value spacing, trailing comments, blank and comment lines, optional final newline) must parse back to exactly the same records (reflect.DeepEqual). distinct = distinct rendered texts; non-trivial = >= 2 records or a multi-line counter"
+	res.Rule = "random record sets (1-6 records; every field independently present/absent; 0-3 issue lines anywhere in the record; counters with 0-12 buckets split over 1-6 lines; depth/error incl. 0 and negatives; now and then a description line of 65-144 KB) rendered by an independent renderer following the package documentation (random field order, key/value spacing, trailing comments, blank and comment lines, optional final newline) must parse back to exactly the same records (reflect.DeepEqual). distinct = distinct rendered texts; non-trivial = >= 2 records or a multi-line counter"
 	n := verifrt.Scale(3000, 300000)
 	for i := 0; i < n; i++ {
 		if !verifrt.WantCase(check, i) {
@@ -333,7 +337,7 @@ func c17Roundtrip(t *testing.T) {
 			res.Distinct(text)
 		}
 		got, err := Parse([]byte(text))
-		rp := verifrt.CaseReplay(i, map[string]any{"text": text})
+		rp := verifrt.CaseReplay(i, map[string]any{"text": fmt.Sprintf("%.4000s", text), "text_len": len(text)})
 		if err != nil {
 			res.Violate("valid-text-rejected", fmt.Sprintf("Parse rejected a rendering of valid records: %v\n%s", err, text), rp)
 			continue
@@ -349,7 +353,7 @@ func c17Roundtrip(t *testing.T) {
 			if d == "" {
 				d = fmt.Sprintf("%d records parsed, %d rendered", len(got), len(recs))
 			}
-			res.Violate("roundtrip-mismatch", d+"\n--- text:\n"+text, rp)
+			res.Violate("roundtrip-mismatch", fmt.Sprintf("%.1500s\n--- text (%d bytes):\n%.3000s", d, len(text), text), rp)
 			continue
 		}
 		if len(recs) > 1 {
@@ -363,11 +367,14 @@ func c17Roundtrip(t *testing.T) {
 		if strings.Contains(text, "{\n") || strings.Contains(text, ",\n") {
 			res.Hit("multi-line-counter")
 		}
+		if len(text) > 70000 {
+			res.Hit("line-longer-than-64KiB")
+		}
 		if i < 2 {
 			res.Sample(map[string]any{"case": i, "text": text})
 		}
 	}
-	res.Require("multi-record", "repeated-issue", "multi-line-counter")
+	res.Require("multi-record", "repeated-issue", "multi-line-counter", "line-longer-than-64KiB")
 	if err := res.Write(); err != nil {
 		t.Fatal(err)
 	}
